@@ -104,7 +104,7 @@ def mk_values(sx):
          'tagged': {'id': sx.int('tid', 0, 99), 'name': sx.text('tname', 1, alphabet='pq'), 'kind': sx.text('tkind', 1, alphabet='uv')},
          'alias': sx.text('alias', 1, alphabet='kl')}
     # an item of either sequence may be null: it keeps its place (as an xsi:nil element) in both directions
-    hole = sx.choose('null_item', [None, ('arr', 0), ('arr', 1), ('many', 1)] if deep else [None, ('arr', 1)])
+    hole = sx.choose('null_item', [None, ('arr', 0), ('many', 1)] if deep else [None, ('arr', 1)])
     if hole is not None and len(o[hole[0]]) > hole[1]:
         o[hole[0]][hole[1]] = None
     return sx.int('a', -99, 99), o
@@ -167,7 +167,7 @@ FUNCS = ['spyne.protocol.xml.XmlDocument.deserialize', 'spyne.protocol.xml.XmlDo
 
 
 @harness('C01', params=[(p, v) for p in sorted(PROTS) for v in (None, 'soft')], label=lambda p: '%s validator=%s' % p,
-         functions=FUNCS,
+         functions=FUNCS, max_paths=40000,
          bounds={'values': 'integer |n| <= 10^6 (thorough: 10^9), strings over {a b < & space} (2 chars; thorough: 3), boolean, nested object, wrapped '
                            'array and unwrapped repeated member of 0 or 2 ints (thorough: 0, 2 or 3), XML attribute, sub_name alias, absent '
                            'optional member, one item of a sequence null (xsi:nil) or none; all leaves symbolic',
